@@ -168,7 +168,9 @@ def check_C06(chk):
             if all(late):
                 late[0] = False
         cases.append({"id": next(nid), "plans": plans, "late": late, "mode": mode, "threads": 1 if mode == "after" else rng.randint(1, 8),
-                      "eintr": 3 if k % 5 == 0 else 0})
+                      "eintr": 3 if k % 5 == 0 else 0,
+                      # a forked child inherits the set (members added, traffic pending) and drops its copy before the parent selects
+                      "forkdrop": mode == "after" and k % 8 == 0})
 
     # bursts: one or two members with many more messages pending at a single readiness event than any per-event budget
     # (default socket buffers, so that they really are all queued when the member becomes ready)
@@ -204,7 +206,7 @@ def check_C06(chk):
 
     def run(chunk, binp=None, shim=True):
         lines = ["id=%d plan=%s mode=%s threads=%d eintr=%d%s%s" % (c["id"], plan_str(c["plans"], c.get("late")), c["mode"], c["threads"], c["eintr"],
-                                                                 " level=ipc" if c.get("level") == "ipc" else "", (" rev=1" if c.get("rev") else "") + (" pace=1" if c.get("pace") else "")) for c in chunk]
+                                                                 " level=ipc" if c.get("level") == "ipc" else "", (" rev=1" if c.get("rev") else "") + (" pace=1" if c.get("pace") else "") + (" forkdrop=1" if c.get("forkdrop") else "")) for c in chunk]
         env = {} if (chunk and chunk[0].get("burst")) else {"VSHIM_SNDBUF": S}
         recs, trace, rc, err = C.run_harness(binp or bins["default"], "rset", lines, env_extra=env, shim=shim, timeout=900)
         by = {r["id"]: r for r in recs if r.get("kind") == "rset"}
@@ -219,6 +221,7 @@ def check_C06(chk):
     inp = [dict(c, id=next(nid)) for c in cases[:20]]
     for c in inp:
         c["eintr"] = 0
+        c["forkdrop"] = False
     inp += [dict(c, id=next(nid)) for c in ipc_cases[:8] + [c for c in ipc_cases if c.get("burst")][:6] + races]
     iitems = run(inp, bins["inprocess"], False)
     fails, waits = [], 0
@@ -363,7 +366,10 @@ def gen_router_cases(rng, n, stops):
                       # shutdown() called from inside a callback that runs on another router's thread
                       "cross": stop == "shutdown" and k % 4 == 2,
                       # the router thread is parked in a callback when shutdown() is requested; routes are offered meanwhile from 4 threads
-                      "busy": 120 if (stop == "shutdown" and k % 4 == 0) else 0})
+                      "busy": 120 if (stop == "shutdown" and k % 4 == 0) else 0,
+                      # the later messages are sent and the senders dropped while the router thread is parked in a callback: one batch
+                      # then holds messages of some routes followed by bare closures of others
+                      "park": 150 if (k % 5 == 1 and r >= 2) else 0})
     # routers that never get a route before they are stopped (then late routes are offered)
     for j, stop in enumerate([s for s in ("shutdown", "proxydrop") if s in stops]):
         cases.append({"id": n + 1 + j, "plan": [], "noroutes": True, "threads": 1, "stop": stop, "nshut": 1 + j, "late": 0, "wave2": 0, "slowdrop": 0})
@@ -373,7 +379,7 @@ def gen_router_cases(rng, n, stops):
 def router_line(c):
     return "id=%d plan=%s threads=%d stop=%s nshut=%d late=%d wave2=%d slowdrop=%d%s" % (
         c["id"], ";".join("%d,%d,%d,%s" % (b, a, 1 if d else 0, (x if isinstance(x, str) else "x") if x else "c") for b, a, d, x in c["plan"]) or ("none" if c.get("noroutes") else "0,0,1,c"),
-        c["threads"], c["stop"], c["nshut"], c["late"], c.get("wave2", 0), c.get("slowdrop", 0), (" owned=1" if c.get("owned") else "") + (" cross=1" if c.get("cross") else "") + ((" busy=%d" % c["busy"]) if c.get("busy") else ""))
+        c["threads"], c["stop"], c["nshut"], c["late"], c.get("wave2", 0), c.get("slowdrop", 0), (" owned=1" if c.get("owned") else "") + (" cross=1" if c.get("cross") else "") + ((" busy=%d" % c["busy"]) if c.get("busy") else "") + ((" park=%d" % c["park"]) if c.get("park") else ""))
 
 
 def router_oracle(c, rec, prop):
@@ -404,7 +410,9 @@ def router_oracle(c, rec, prop):
         if any(e[0] == "badmsg" for e in evs):
             return "route %d: callback received an undecodable message" % i
         extra = 1 if (c.get("wave2", 0) and not d) else 0
-        if [e[3] for e in calls if e[3] != 9999] != list(range(b + a + extra)) or any(e[2] != i for e in calls):
+        # (9999: probes sent after the stop; 7777: traffic that reaches the router in one batch with a pending shutdown request - whether
+        # it is still delivered is the scheduler's choice, but it must not be delivered out of order, twice, or to a dropped callback)
+        if [e[3] for e in calls if e[3] not in (9999, 7777)] != list(range(b + a + extra)) or any(e[2] != i for e in calls) or sum(1 for e in calls if e[3] == 7777) > 1:
             return "route %d: callback invoked with %s instead of its %d messages once each in order" % (i, [(e[2], e[3]) for e in calls][:8], b + a)
         drops = [k for k, e in enumerate(evs) if e[0] == "drop"]
         if len(drops) > 1:
@@ -626,8 +634,10 @@ def check_C20(chk):
     chunks = [list(range(len(cases)))[i::6] for i in range(6)]
     # abandoned streams: a consumer drops its stream while the sender keeps sending; other streams must not notice
     unit_lines = ["id=%d op=unit before=%d after=%d" % (9100 + i, b, a) for i, (b, a) in enumerate([(0, 1), (3, 0), (2, 5), (70, 70)])]
+    probe_lines = ["id=%d op=probe k=%d probes=%d" % (9200 + i, k, p) for i, (k, p) in enumerate([(1, 1), (5, 1), (5, 3), (40, 2)])]
     arecs, _, arc, aerr = C.run_harness(bins["async"], "async", ["id=9001 op=abandon rounds=%d k=3" % (2000 if thorough else 300),
-                                                                   "id=9002 op=abandon rounds=%d k=25" % (500 if thorough else 60)] + unit_lines, shim=False, timeout=600)
+                                                                   "id=9002 op=abandon rounds=%d k=25" % (500 if thorough else 60)] + unit_lines + probe_lines, shim=False, timeout=600)
+    probes = [r for r in arecs if r.get("kind") == "probe"]
     abandon = [r for r in arecs if r.get("kind") == "abandon"]
     units = [r for r in arecs if r.get("kind") == "unit"]
 
@@ -694,6 +704,18 @@ def check_C20(chk):
                                  % (r["counts"][0], r["counts"][1], r["counts"][2], tot)), {"scenario": "op=unit before=%d after=%d" % (r["before"], r["after"]), "observed": r},
                               key="unit:%d:%d" % (r["before"], r["after"]))
     chk.coverage["empty_item_stream_scenarios"] = len(units)
+    # a stream probed while empty (throw-away waker), then awaited by another task on another thread
+    if len(probes) < len(probe_lines) and len(units) == len(unit_lines):
+        fails.append((None, None, "probe"))
+        chk.failing_input("the probed-stream scenario did not complete: %s" % aerr[-300:], {"scenario": "op=probe"}, key="probe:none")
+    for r in probes:
+        if r["hang"] or r["items"] != list(range(r["k"])) or r["early"]:
+            fails.append((None, r, "probe"))
+            chk.failing_input("a stream polled %d time(s) while nothing was there (a probe whose waker is thrown away) and then awaited by another task on another thread: %s"
+                              % (r["probes"], "the waiting task was never woken (watchdog; %d messages were sent, then the sender dropped)" % r["k"] if r["hang"]
+                                 else "yielded %s instead of its %d messages" % (r["items"], r["k"])), {"scenario": "op=probe k=%d probes=%d" % (r["k"], r["probes"]), "observed": r},
+                              key="probe:%d:%d" % (r["k"], r["probes"]))
+    chk.coverage["probed_stream_scenarios"] = len(probes)
     if len(abandon) < 2:
         fails.append((None, None, "abandon"))
         chk.failing_input("the abandoned-stream scenario did not complete: %s" % aerr[-300:], {"scenario": "op=abandon"}, key="abandon:none")
@@ -766,6 +788,13 @@ def gen_timed(rng, n):
             ops.append("T%d" % us)
             model.append("(MTimeout %d, %s, None)" % (us, state))
             d = us
+        elif r < 0.82 and state == "QIdle" and alive:
+            # the timeout expires in the middle of an incoming multi-fragment message (its sender pauses 60 ms after the first fragment,
+            # which arrives after 10 ms; timeout 30 ms): the message is finished and returned, not dropped half-way
+            ops.append("F30000/60")
+            model.append("(MTimeout 30000, QIdle, Some QMsg)")
+            state = "QMsgLater"
+            d = None
         elif r < 0.84 and state == "QIdle" and alive:
             # a timed wait on the idle channel cut short by a signal: an I/O error, never 'empty'
             us = rng.choice([5000, 20000, 60000, 2000000])
@@ -822,6 +851,78 @@ def project_timed(calls):
     return out
 
 
+def timed_plain(c):
+    """a timed-driver case for a build that runs without the interposer: no signal is delivered there, an `I` operation is a plain timed wait"""
+    c2 = dict(c, ops=[("T%d" % min(int(o[1:]), 20000)) if o[0] == "I" else o for o in c["ops"]], expect=list(c["expect"]), meta=[dict(m) for m in c["meta"]])
+    for j, m in enumerate(c2["meta"]):
+        if m["state"] == "Interrupted":
+            m.update(op="T%d" % min(int(m["op"][1:]), 20000), state="QIdle", timeout_us=min(int(m["op"][1:]), 20000))
+            c2["expect"][j] = "OEmpty"
+    return c2
+
+
+def timed_slice(chk, bins, flavours, n, seed_off, what):
+    """sequences mixing recv / try_recv / try_recv_timeout against senders acting before or during the call, on several builds (oracle only)"""
+    rng = random.Random(chk.seed + seed_off)
+    cases = []
+    while len(cases) < n:
+        ops, model, expect, meta = gen_timed(rng, rng.randint(4, 12))
+        if model:
+            cases.append(timed_plain({"id": len(cases) + 1, "ops": ops, "model": model, "expect": expect, "meta": meta}))
+    lines = ["id=%d ops=%s" % (c["id"], ",".join(c["ops"])) for c in cases]
+    nf = 0
+    for fl in flavours:
+        recs, _, rc, err = C.run_harness(bins[fl], "timed", lines, shim=False, timeout=600)
+        by = {r["id"]: r for r in recs if r.get("kind") == "timed"}
+        for c in cases:
+            why = timed_oracle(c, by.get(c["id"]))
+            if why:
+                nf += 1
+                chk.failing_input("%s, %s build: %s" % (what, fl, why), {"build": fl, "sequence": ",".join(c["ops"]), "observed": by.get(c["id"]) and by[c["id"]]["results"]},
+                                  key="timedslice:%s:%s" % (fl, ",".join(c["ops"])))
+                break
+        chk.coverage.setdefault("timed_receive_sequences", {})[fl] = len(by)
+    return nf
+
+
+def timed_oracle(c, rec):
+    why = None
+    if rec is None:
+        why = "harness produced no record: a receive blocked for ever or the process died"
+    else:
+        for r, e, m in zip(rec["results"], c["expect"], c["meta"]):
+            if m["state"] == "Interrupted" and r["out"] == "OEmpty":
+                why = ("try_recv_timeout(%s us) on a connected, idle channel whose wait was cut short by a signal (poll: EINTR) reported 'empty' after only %d us: the requested "
+                       "time had not passed (an I/O error is what the unchanged code reports)" % (m["op"][1:], r["us"]))
+                break
+            if m["op"][0] == "F" and r["out"] != "OMsg":
+                why = ("try_recv_timeout(30 ms) whose timeout expired in the middle of an incoming multi-fragment message (first fragment after 10 ms, the rest 60 ms later) "
+                       "returned %s after %d us instead of finishing and returning the message" % (r["out"], r["us"]))
+                break
+            if r["out"] != e:
+                why = "operation %s returned %s where %s is required (channel state when it looked: %s)" % (r["op"], r["out"], e, m["state"])
+                break
+            if m["op"] == "t" and r["us"] > 200000:
+                why = "try_recv took %d us" % r["us"]
+                break
+            if m["timeout_us"] is not None and r["out"] == "OEmpty" and r["us"] + 50 < (m["timeout_us"] // 1000) * 1000:
+                why = "try_recv_timeout(%d us) reported 'empty' after only %d us" % (m["timeout_us"], r["us"])
+                break
+            if m["op"][0] == "F" and r["out"] != "OMsg":
+                why = ("try_recv_timeout(30 ms) whose timeout expired in the middle of an incoming multi-fragment message (first fragment after 10 ms, the rest 60 ms later) "
+                       "returned %s after %d us instead of finishing and returning the message" % (r["out"], r["us"]))
+                break
+            if m["op"][0] in "WH" and r["us"] > 1000000:
+                why = "timed receive did not return early when the %s during the wait (%d us)" % ("sender went away" if m["op"][0] == "H" else "message arrived", r["us"])
+                break
+            if m["op"][0] == "B" and r["us"] < 15000:
+                why = "a blocking recv issued after non-blocking/timed receives returned after %d us without waiting for the message" % r["us"]
+                break
+        if why is None and len(rec["results"]) != len(c["expect"]):
+            why = "%d of %d receive operations completed" % (len(rec["results"]), len(c["expect"]))
+    return why
+
+
 def check_C10(chk):
     thorough = chk.tier == "thorough"
     rng = random.Random(chk.seed)
@@ -844,44 +945,10 @@ def check_C10(chk):
         return [(c, by.get(c["id"]), trace, fl) for c in chunk]
     with concurrent.futures.ThreadPoolExecutor(max_workers=12) as ex:
         items = [it for r in ex.map(run, chunks) for it in r]
-    # the in-process build runs without the interposer: no signal is delivered there, an `I` operation is a plain timed wait
-
-    def plain(c):
-        c2 = dict(c, ops=[("T%d" % min(int(o[1:]), 20000)) if o[0] == "I" else o for o in c["ops"]], expect=list(c["expect"]), meta=[dict(m) for m in c["meta"]])
-        for j, m in enumerate(c2["meta"]):
-            if m["state"] == "Interrupted":
-                m.update(op="T%d" % min(int(m["op"][1:]), 20000), state="QIdle", timeout_us=min(int(m["op"][1:]), 20000))
-                c2["expect"][j] = "OEmpty"
-        return c2
-    items += run([plain(c) for c in cases[:12]], "inprocess")
+    items += run([timed_plain(c) for c in cases[:12]], "inprocess")
     fails, todo = [], []
     for k, (c, rec, trace, fl) in enumerate(items):
-        why = None
-        if rec is None:
-            why = "harness produced no record: a receive blocked for ever or the process died"
-        else:
-            for r, e, m in zip(rec["results"], c["expect"], c["meta"]):
-                if m["state"] == "Interrupted" and r["out"] == "OEmpty":
-                    why = ("try_recv_timeout(%s us) on a connected, idle channel whose wait was cut short by a signal (poll: EINTR) reported 'empty' after only %d us: the requested "
-                           "time had not passed (an I/O error is what the unchanged code reports)" % (m["op"][1:], r["us"]))
-                    break
-                if r["out"] != e:
-                    why = "operation %s returned %s where %s is required (channel state when it looked: %s)" % (r["op"], r["out"], e, m["state"])
-                    break
-                if m["op"] == "t" and r["us"] > 200000:
-                    why = "try_recv took %d us" % r["us"]
-                    break
-                if m["timeout_us"] is not None and r["out"] == "OEmpty" and r["us"] + 50 < (m["timeout_us"] // 1000) * 1000:
-                    why = "try_recv_timeout(%d us) reported 'empty' after only %d us" % (m["timeout_us"], r["us"])
-                    break
-                if m["op"][0] in "WH" and r["us"] > 1000000:
-                    why = "timed receive did not return early when the %s during the wait (%d us)" % ("sender went away" if m["op"][0] == "H" else "message arrived", r["us"])
-                    break
-                if m["op"][0] == "B" and r["us"] < 15000:
-                    why = "a blocking recv issued after non-blocking/timed receives returned after %d us without waiting for the message" % r["us"]
-                    break
-            if why is None and len(rec["results"]) != len(c["expect"]):
-                why = "%d of %d receive operations completed" % (len(rec["results"]), len(c["expect"]))
+        why = timed_oracle(c, rec)
         if why:
             fails.append((c, rec, fl, why))
             continue
@@ -1194,6 +1261,9 @@ def check_C08(chk):
     # created in one process, accepted (or dropped unused) in a forked child
     fork_ids = [next(nid), next(nid)]
     nlines += ["id=%d op=forkaccept unused=0" % fork_ids[0], "id=%d op=forkaccept unused=1" % fork_ids[1]]
+    # dropped unused while the process's descriptor table is full
+    full_id = next(nid)
+    nlines.append("id=%d op=fullfd" % full_id)
     recs, trace, rc, err = C.run_harness(bins["default"], "server", lines + nlines, env_extra={"TMPDIR": tmp, "VSHIM_SNDBUF": 4096}, timeout=900)
     by = {r["id"]: r for r in recs if r.get("kind") == "server"}
     # the big-backlog cases once more with the system's own buffer sizes (single packets of up to 96000 bytes fill the client's socket)
@@ -1270,6 +1340,12 @@ def check_C08(chk):
         elif not r["gone"] or not r["dir_gone"] or r["tmp_after"] != r["tmp_before"]:
             fails.append(({"op": "forkaccept", "unused": r["unused"]}, r, "a server created in one process and %s in a forked child leaves its socket file / temp dir behind"
                           % ("dropped unused" if r["unused"] else "accepted")))
+    fr = next((r for r in recs if r.get("kind") == "fullfd"), None)
+    if fr is None:
+        fails.append(({"op": "fullfd"}, None, "the scenario 'server dropped while the descriptor table is full' did not complete: %s" % err[-200:]))
+    elif not fr["gone"] or not fr["dir_gone"] or fr["tmp_after"] != fr["tmp_before"]:
+        fails.append(({"op": "fullfd"}, fr, "a one-shot server dropped (unused) while the process's descriptor table was full (%d descriptors opened to fill it) leaves its socket file / "
+                      "temporary directory behind" % fr["filled"]))
     # long temporary directories: the socket path has to fit into sockaddr_un (108 bytes); whatever the library does with a name that
     # comes close to the limit, the name it hands out must lead a client to this server, in order, and nothing may stay behind
     long_n = 0
